@@ -71,14 +71,20 @@ def new_decl(r, prog, kind):
     for _ in range(depth):
         item = {'k': 'namespace', 'name': r.choice(gen_idl.NS_POOL), 'comment': None, 'items': [item]}
     prog['files'][f]['items'].append(item)
+    d['_touched'] = True
     return f, d
 
 
 def pick(r, prog, kind, pred=lambda d: True):
-    c = [(f, d) for f, d, ns in all_decls(prog) if d['k'] == kind and pred(d)]
+    # a declaration is broken at most once: two injections into the same declaration overwrite each other's targets / modifiers
+    # (the expected list would then name a violation the printed program no longer contains)
+    c = [(f, d) for f, d, ns in all_decls(prog) if d['k'] == kind and pred(d) and not d.get('_touched')]
     if c and r.random() < 0.6:
-        return r.choice(c)
-    return new_decl(r, prog, kind)
+        f, d = r.choice(c)
+    else:
+        f, d = new_decl(r, prog, kind)
+    d['_touched'] = True
+    return f, d
 
 
 def inject(r, prog):
@@ -142,6 +148,7 @@ def inject(r, prog):
             d['targets'] = r.choice([[], ['+java'], ['+cpp', '+java'], ['-cpp'], ['+any']])
             d['main'] = False
             m['static'] = True
+            m['const'] = False          # static together with const is a second violation (static-and-const)
             extra = [('static-not-cpp', f, d)] * 0
             # every static method of this interface is now a violation
             return [(rule, f, d)]
@@ -205,7 +212,8 @@ def inject(r, prog):
             return out
         return [(rule, f, d)]
     if rule in ('no-generics', 'generic-arity', 'unknown-type'):
-        f, d = pick(r, prog, 'record')
+        # a collection-typed field under `ord` deriving is a second violation (ord-collection): use records that do not derive ord
+        f, d = pick(r, prog, 'record', lambda d: 'ord' not in (d.get('deriving') or []))
         t = {'no-generics': lambda: data(r.choice(['i32', 'string']), [data('i32')]),
              'generic-arity': lambda: r.choice([data('list', [data('i32'), data('i32')]), data('map', [data('string')])]),
              'unknown-type': lambda: r.choice([data('does_not_exist'), data('nope', [data('i32')]), data('list', [data('missing_t')])])}[rule]()
